@@ -30,6 +30,12 @@ class QPollerModel:
     def m_poll(ex, o, timeout=None):
         ex.__dict__.setdefault('events', []).append(('poll', timeout))
         q = o.f['queue']
+        if q:
+            # ghost clock: the poll may have blocked for any time; the message it returns arrived at `arrival` (not before the last clock reading)
+            arr = fresh_int('arrival_ns')
+            if getattr(ex, 'last_time', None) is not None:
+                ex.assume(arr >= ex.last_time)
+            ex.last_time = ex.ghost_arrival = arr
         return [q.pop(0)] if q else []
 
 
@@ -126,9 +132,16 @@ def run_send(cfg, dec):
         ex.assume(st_msg < me.f['min_send_id'])
     else:
         state = None
+    def clock(ex_):
+        # time_ns(): a monotone clock (never before an earlier reading or the arrival of a message already received)
+        t = fresh_int('t_ns')
+        if getattr(ex_, 'last_time', None) is not None:
+            ex_.assume(t >= ex_.last_time)
+        ex_.last_time = t
+        return t
     g = ex.modules[ZMQ]
     g.update(zmq=Obj('zmq', world=None), json_loads=Native(json_loads, 'json_loads'), json_dumps=Native(json_dumps, 'json_dumps'),
-             time_ns=Native(lambda ex_: fresh_int('t_ns'), 'time_ns'), ZMQSender=Obj('ZMQSenderCls'), ZMQStateRecv=Native(lambda ex_, m: StateRecv(m), 'ZMQStateRecv'))
+             time_ns=Native(clock, 'time_ns'), ZMQSender=Obj('ZMQSenderCls'), ZMQStateRecv=Native(lambda ex_, m: StateRecv(m), 'ZMQStateRecv'))
     fn = closure(ZMQ, 'ZMQSender.send')
     body = fn.node.body
     idx = [i for i, n in enumerate(body) if isinstance(n, ast.While)]
@@ -217,6 +230,9 @@ def send_obligations(ex, R):
         cw = mid['clients'][w]
         O('C04.one_publish_per_request: processing a request marks exactly the requesting client', nz(cw.requested))
         O('C04.removal: t_last of the requesting client is refreshed', isinstance(cw.t_last, z3.ExprRef) and not any(cw.t_last is c.t_last for c in pre.values()))
+        if getattr(ex, 'ghost_arrival', None) is not None and isinstance(cw.t_last, z3.ExprRef):
+            O('C04.removal: the time recorded for a request is read AFTER the request arrived (a poll may block arbitrarily long; silence is counted from the real arrival)',
+              cw.t_last >= ex.ghost_arrival / 1000000)
         if w in ('new', 'c0+sibling'):
             O('C03.handshake: a new client enters the table only through a request that does not carry `new`', z3.Not(req['new']))
     if cfg['kind'] == 'request' and w in ('new', 'c0+sibling') and w not in mid['clients']:
